@@ -358,7 +358,7 @@ func atpcMain(a Args) {
 			for _, j := range base {
 				add(j, "c06-base")
 			}
-			budget := 9000
+			budget := 12000
 			if thorough {
 				budget = 1 << 30
 			}
@@ -446,7 +446,7 @@ func atpcMain(a Args) {
 				}
 				return 0
 			}
-			for _, ss := range atpcs.BackpressureSessions() {
+			for _, ss := range append(atpcs.BackpressureSessions(), atpcs.SignalEchoWitnesses()...) {
 				st.Sessions++
 				var ds []atpcs.Delay
 				if p := firstPoint(ss.DelayFn); p > 0 {
